@@ -9,7 +9,8 @@ PKG = "c12"
 RULE = ("cases = (configuration, step) pairs enumerated exhaustively by TLC from ClusterArtifactsGen: every format version "
         "v1.0..v1.11 x {lock, definition} x every leaf of the per-version protection table x every representative alteration "
         "(flip a bit, zero, truncate, extend by 0x00 / 0x01, empty, swap with a sibling, replace address, increment, negate, "
-        "switch to a sibling version) and the value-preserving rewrites (decode/encode, key order, whitespace, hex case, "
+        "switch to a sibling version; for v1.11 artifacts whose EIP712 signature leaves hold 2 or 3 concatenated signatures also a bit "
+        "at the first/middle/last byte and inside each 65-byte segment, judged by the hashes alone) and the value-preserving rewrites (decode/encode, key order, whitespace, hex case, "
         "address case); created clusters n=3..5 with every threshold: every node's keystores and deposit files, recombination "
         "of every node subset of size t-1, t, n; plus seeded larger clusters (n<=10, sampled subsets).  Sizes, networks, "
         "deposit-amount sets, addresses and the altered element/bit are seeded.  Executed on `charon create cluster` (cmd.New()), "
@@ -94,7 +95,9 @@ def build_schedules(seed, groups, thorough):
                 fort.append([c, {"ev": "Create"}, {"ev": "Load", "node": 0}, {"ev": "Verify"}])
         elif cfg["src"] == "fort":
             tam = list(steps)
-            if not thorough:
+            if cfg.get("msig", 0) > 0:
+                tam = tam * (4 if thorough else 2)     # few cases, seeded positions: all of them, repeatedly
+            elif not thorough:
                 # quick: every leaf keeps every alteration kind in at least one of its selectors; a seeded half of the rest
                 keep, seen = [], set()
                 r.shuffle(tam)
@@ -132,7 +135,7 @@ def build_schedules(seed, groups, thorough):
     # larger clusters: seeded subsets
     for n in ([6, 7, 8, 9, 10] if thorough else r.sample([6, 7, 8, 9, 10], 2)):
         t = r.choice([0, 0, r.randint(2, n)])
-        c = fill_cfg(r, {"ev": "Cfg", "src": "create", "art": "lock", "ver": "v1.11.0", "n": n, "t": t, "flaw": "none"})
+        c = fill_cfg(r, {"ev": "Cfg", "src": "create", "art": "lock", "ver": "v1.11.0", "n": n, "t": t, "flaw": "none", "msig": 0})
         te = t or -(-2 * n // 3)
         steps = [{"ev": "Keystores", "node": i} for i in range(n)] + [{"ev": "Deposits", "node": r.randrange(n)}]
         for size in [te] * (6 if thorough else 3) + [te - 1] * (3 if thorough else 2) + [n, te + 1 if te < n else n, 1]:
